@@ -255,6 +255,7 @@ def regroup_vectorized(srccat, eps, far=None, dist=norm_dist):
         #       gain. If not, get distance to all entries in groups above
         #       decmin simultaneously.
         decmin = rec.dec - far
+        linked = []
         for group in reversed(groups):
             # when an island's largest (last) declination is smaller than
             # decmin, we don't need to look at any more islands
@@ -265,8 +266,15 @@ def regroup_vectorized(srccat, eps, far=None, dist=norm_dist):
             group_recs = np.take(srccat, group, mode='clip')
             group_recs = group_recs[abs(rec.ra - group_recs.ra) <= rafar]
             if len(group_recs) and dist(rec, group_recs).min() < eps:
-                group.append(idx)
-                break
+                linked.append(group)
+        if linked:
+            # a source that is close to more than one group joins them
+            merged = linked[-1]
+            for group in linked[:-1]:
+                merged.extend(group)
+                groups = [g for g in groups if g is not group]
+            merged.sort(key=lambda i: -srccat.dec[i])
+            merged.append(idx)
         else:
             # new group
             groups.append([idx])
